@@ -122,6 +122,32 @@ def jobs_c17(tier, known):
     return js
 
 
+def jobs_c11(tier, known):
+    js = []
+    dl = 300 if tier == "quick" else 3000
+    caps = "8,16,12,4,3,4,8" if tier == "quick" else "8,16,12,4,4,5,8"
+    for kernel in ("poly", "tet", "hex"):
+        for seed in SEEDS[kernel]:
+            for mode in (["d1f1", "d0f0"] if tier == "quick" else MODES):
+                for bu in ("v1e1f1", "v0e1f1") + (() if tier == "quick" else ("v0e0f0",)):
+                    cfg = cfgstr(mode, bu)
+                    if kernel == "hex":
+                        c = "8,16,12,4,4,%d,7" % (3 if tier == "quick" else 4)  # quads: lists up to 4 halfedges
+                    else:
+                        c = caps
+                    if tier == "quick" or seed_class(seed) == "large":
+                        js.append(mesh_job("C11", kernel, seed, cfg, A_ADDCV, 1, caps=c, bcfg="fast", deadline=dl, known=known))
+                    else:
+                        js.append(mesh_job("C11", kernel, seed, cfg, A_DEL | A_GC, 1, A_ADDCV, 2, caps=c, bcfg="fast", deadline=dl, known=known))
+            # ASan pass with shorter lists
+            js.append(mesh_job("C11", kernel, seed, cfgstr("d1f1"), A_ADDCV, 1, caps="8,16,12,4,2,3,6", bcfg="asan", deadline=dl, known=known))
+    # generic valid-argument histories with the construction alphabet: accepted calls append exactly the given definition
+    plan = {"quick": {"small": (A_ADDV | A_ADDE | A_ADDF | A_ADDFHE | A_ADDC, 2, 0, 0), "medium": (A_ADDV | A_ADDE | A_ADDF | A_ADDFHE | A_ADDC, 1, 0, 0), "large": None},
+            "thorough": {"small": (A_ADDV | A_ADDE | A_ADDF | A_ADDFHE | A_ADDC, 3, 0, 0), "medium": (A_ADDV | A_ADDE | A_ADDF | A_ADDFHE | A_ADDC, 2, 0, 0), "large": (A_ADDV | A_ADDE | A_ADDF | A_ADDFHE | A_ADDC, 1, 0, 0)}}
+    js += tiered("C11", tier, known, plan, modes=["d1f1", "d0f0"], busets=("v1e1f1", "v0e1f1"))
+    return js
+
+
 def jobs_c12(tier, known):
     plan = {"quick": {"small": (A_FULL, 2, 0, 0), "medium": (A_FULL, 1, 0, 0), "large": (A_R2, 1, 0, 0)},
             "thorough": {"small": (A_FULL, 2, A_R2, 3), "medium": (A_FULL, 1, A_R2, 2), "large": (A_FULL, 1, 0, 0)}}
@@ -135,6 +161,26 @@ def jobs_c12(tier, known):
     js += tiered("C12", tier, known, {"quick": {}, "thorough": {}}, props=1, asan_plan=asan,
                  asan_cfgs=(("d1f1", "v0e0f0"), ("d0f0", "v0e0f0"), ("d0f1", "v1e0f1"), ("d1f0", "v1e1f0"), ("d0f0", "v0e1f1")))
     return js
+
+
+IO_ENV = {"ASAN_OPTIONS": "detect_leaks=0:allocator_may_return_null=1:max_allocation_size_mb=256:abort_on_error=0:handle_abort=0",
+          "UBSAN_OPTIONS": "abort_on_error=0:halt_on_error=1:print_stacktrace=0"}
+
+
+def io_jobs(prop, nparts_q, nparts_t):
+    def f(tier, known):
+        n = nparts_q if tier == "quick" else nparts_t
+        dl = 420 if tier == "quick" else 3000
+        js = []
+        for i in range(n):
+            base = ["--prop", prop]
+            args = base + ["--tier", tier, "--part", "%d/%d" % (i, n), "--deadline", str(dl)]
+            if known:
+                args += ["--known", ",".join(known)]
+            js.append({"id": "%s-ovmio-%s-part%dof%d" % (prop, tier, i, n), "cfg": "asan", "bin": "ovmio", "args": args, "replay_args": base,
+                       "timeout": dl + 300, "env": IO_ENV})
+        return js
+    return f
 
 
 E1_ASSUME = ["states are operation histories replayed on fresh objects; deduplicated on a key of all concrete fields",
@@ -157,9 +203,33 @@ PROPS = {
     "C03": mc(jobs_c03, B_STATE_Q + "; 5 typed properties (int private, bool shared, double persistent, string private-named, Vec3d shared) on all 6 entity kinds + mesh property + one property created mid-history",
               B_STATE_T),
     "C05": mc(jobs_state("C05"), B_STATE_Q + "; every centre x 26 circulators x laps 1..3 x every step count", B_STATE_T),
+    "C06": {"jobs": io_jobs("C06", 16, 16), "level": "exploration", "engine": "ovmio",
+            "rule": "cases = (corpus mesh x property set) x {writer bytes decoded by the independent reference codec; round trip into every compatible kernel x topology check x incidences; every alternative encoding of the option lattice; OVM-ASCII round trip + second round trip; pending deletions x 4 through both writers; read_file by extension; type detection}; a case is non-trivial/distinct by its (operator, outcome) class",
+            "technique": "bounded-exhaustive enumeration of encodings (finite option lattice of an independent reference OVMB codec) against the real reader/writer",
+            "assumptions": ["the reference codec (engines/ovmio/ref_codec.hh) is written from ovmb.ksy + binary_file_format.docu only and self-checked on every generated encoding",
+                            "OVM-ASCII: non-finite floating point values and string properties are left out (the text format cannot carry them / has no exactness promise); property blocks are compared order-insensitively",
+                            "value alphabets per codec type are finite (min/max/-0/denormal/NaN payload/inf, empty/spaced/multi-line/NUL strings, handles -1/0/5/70000)"],
+            "bounds": {"quick": "14 small corpus meshes x 5-6 property sets (all 30 codec types) + 19 index-width boundary meshes (254..257, 65535..65537 vertices / halfedges / halffaces); 2-way span splits, widths, offsets, unknown chunks, DIRP position",
+                       "thorough": "all 30 types on all 7 entity kinds; 3-way splits; unknown chunk at every boundary"}},
+    "C07": {"jobs": io_jobs("C07", 16, 16), "level": "fault_enumeration", "engine": "ovmio",
+            "rule": "every corpus file (14 OVMB + 14 OVM-ASCII) x every mutation of the operator set (byte substitution with 10 values, deletion, insertion, duplication at every position; every truncation; 2/4/8-byte little-endian windows x 13 boundary values; splices at chunk boundaries; inserted bytes after chunks; ASCII: every token x replacement set, every line dropped/repeated) x kernels x topology check; distinct = (operator, outcome) classes",
+            "technique": "bounded-exhaustive mutation of a corpus with fork-isolated execution under ASan/UBSan/libstdc++ assertions; success audited for validity",
+            "assumptions": ["'every byte string' is approximated by the exhaustive application of a finite operator set to a corpus",
+                            "allocation requests above 256 MB fail (sanitizer allocator returns null -> std::bad_alloc), which is the allowed 'declared size cannot be allocated' outcome",
+                            "a case that exceeds 3 s is re-run alone with 30 s before it is called a hang"],
+            "bounds": {"quick": "28 files, reduced insertion/window/splice density", "thorough": "all window offsets, all splices, 2-byte insertions, all three kernels"}},
+    "C18": {"jobs": io_jobs("C18", 16, 16), "level": "fault_enumeration", "engine": "ovmio",
+            "rule": "every corpus OVMB file x {every truncation length; every byte of the file header, chunk headers, sub-headers and padding x 13 values; every chunk dropped / duplicated / moved to every other position; input stream failing from byte k for every k; output stream failing from byte k for every k}; MUST-REJECT / VALID / UNSPECIFIED decided by the independent reference decoder",
+            "technique": "exhaustive fault enumeration (truncation points, header bytes, chunk permutations, stream fault positions) with an independent format oracle",
+            "assumptions": ["mutations the format documents leave open (compression != 0, file_version, flags, empty chunks ...) are only audited for memory safety and validity"],
+            "bounds": {"quick": "14 files", "thorough": "14 files (same operators; larger value set is in C07)"}},
     "C08": mc(jobs_state("C08"), B_STATE_Q, B_STATE_T),
     "C09": mc(jobs_state("C09"), B_STATE_Q, B_STATE_T),
     "C10": mc(jobs_state("C10"), B_STATE_Q + "; all ordered vertex pairs/triples(/4-tuples), all halfedge pairs, all (cell, ...) combinations per state", B_STATE_T),
+    "C11": mc(jobs_c11, "probe alphabet on every seed x 3 kernels x {deferred+fast, immediate} x vertex incidences {on, off}: add_edge over all ordered vertex pairs, add_face(list, check) over ALL halfedge tuples of length 0..3 (hex: 0..4) and add_cell(list, check) over ALL halfface tuples of length 0..4 (hex: 0..3) from a pool of 8 live handles; plus valid-argument construction histories depth 2 / 1",
+              "tuples up to length 4 (faces) / 5 (cells), also after every single deletion and with all incidences off; construction histories depth 3 / 2 / 1",
+              extra=["accept predicate: closed halfedge loop / every halfedge of the listed halffaces matched exactly once by its opposite (several disjoint closed surfaces are accepted, as by the code), plus the valence rules of the tet/hex kernels",
+                     "hex kernel: an accepted topology-checked add_cell may store a re-ordering of the given list (C16 decides the order)"]),
     "C12": mc(jobs_c12, "8 incidence subsets x 4 deletion modes x all seeds x 3 kernels: full alphabet depth 2 (small), depth 1 (medium/large) + depth 1+2 on 4 seeds x 8 configs; ASan+UBSan depth 1 on 5 configs",
               "depth 2+3 (small), 1+2 (medium), 1 (large) on all 32 configs; deep 2+3 / 1+2 on 8 configs", extra=[
                   "differential oracle: a twin mesh with all incidences permanently enabled executes the same history (handle for handle) minus the toggles",
@@ -170,6 +240,8 @@ PROPS = {
 
 NOT_YET = {}
 ENGINES = [
+    {"name": "ovmio", "path": "engines/ovmio", "serves_properties": ["C06", "C07", "C18"],
+     "kind_free_text": "exhaustive encodings / mutations / stream faults against the real readers and writers, independent reference OVMB codec, fork isolation"},
     {"name": "meshmc", "path": "engines/meshmc", "serves_properties": ["C01", "C02", "C03", "C04", "C05", "C08", "C09", "C10", "C11", "C12", "C13", "C15", "C16", "C17"],
      "kind_free_text": "explicit-state BFS over operation histories of the real mesh kernels, label-space reference model + brute-force incidence oracle"},
 ]
